@@ -401,12 +401,14 @@ def _candidates(m, fine=True):
             yield lambda kind=kind, i=i: _rename(m, kind, i)
 
 
-def minimize_model(m, test: Callable[[Dict[str, Any]], bool], deadline: float, fine: bool = True) -> Dict[str, Any]:
-    """Greedy deletion to a fixpoint (or until the deadline).  After a successful step the scan goes on from the
-    same position in the candidate list of the new model (earlier candidates have just been refused)."""
+def minimize_model(m, test: Callable[[Dict[str, Any]], bool], max_tests: int, fine: bool = True) -> Dict[str, Any]:
+    """Greedy deletion to a fixpoint (or until `max_tests` candidate models have been tried: a count, not a
+    clock, so that the result does not depend on machine load).  After a successful step the scan goes on from
+    the same position in the candidate list of the new model (earlier candidates have just been refused)."""
     pos = 0
     progress = False
-    while time.time() < deadline:
+    tests = 0
+    while tests < max_tests:
         cands = list(_candidates(m, fine))
         if pos >= len(cands):
             if not progress:
@@ -415,7 +417,7 @@ def minimize_model(m, test: Callable[[Dict[str, Any]], bool], deadline: float, f
             continue
         stepped = False
         for i in range(pos, len(cands)):
-            if time.time() >= deadline:
+            if tests >= max_tests:
                 return m
             try:
                 m2 = cands[i]()
@@ -423,6 +425,7 @@ def minimize_model(m, test: Callable[[Dict[str, Any]], bool], deadline: float, f
                 m2 = None
             if m2 is None:
                 continue
+            tests += 1
             try:
                 ok = test(m2)
             except SurfaceError:
@@ -633,7 +636,7 @@ def localize(m, sp, sig: Sig, ignore=()) -> Dict[str, Any]:
                 return m2
         except SurfaceError:
             continue
-    return minimize_model(m, lambda m2: _same(evaluate(m2, sp, ignore, fast=True)[0], sig), time.time() + 0.4, fine=False)
+    return minimize_model(m, lambda m2: _same(evaluate(m2, sp, ignore, fast=True)[0], sig), 40, fine=False)
 
 
 def reduce_failure(m, sp, sig: Sig, ignore=()):
@@ -662,18 +665,17 @@ def reduce_failure(m, sp, sig: Sig, ignore=()):
         if _same(evaluate(m_c, sp_try, ignore, fast=True)[0], sig):
             sp_min = sp_try
     m_min = minimize_model(m_c, lambda m2: _same(evaluate(m2, sp_min, ignore, fast=True)[0], sig),
-                           time.time() + (0.3 if culprits else 0.8), fine=True)
+                           120 if culprits else 400, fine=True)
     return m_min, sp_min, culprits
 
 
-def classify(m: Dict[str, Any], sp: Dict[str, Any], budget_s: float = 1.2, rounds: int = 3) -> Optional[Tuple[str, str]]:
+def classify(m: Dict[str, Any], sp: Dict[str, Any], rounds: int = 3) -> Optional[Tuple[str, str]]:
     """Run the contract; on failure reduce it and return (key, message).
 
     A document can fail for several independent reasons.  After a failure has been attributed to spelling
     labels these are pinned (or, for a mismatch that shows in canonical spelling, its path is ignored) and the
     contract is evaluated again; the *last* failure found is returned, so that frequent failures do not mask
     rarer ones (the frequent ones are still reported by the documents where they are the only failure)."""
-    t_end = time.time() + budget_s
     pins = list(sp.get('pin', []))
     ignore: set = set()
     result = None
@@ -681,8 +683,6 @@ def classify(m: Dict[str, Any], sp: Dict[str, Any], budget_s: float = 1.2, round
         cur = dict(sp, pin=list(pins))
         sig, text, used, detail = evaluate(m, cur, ignore)
         if sig is None:
-            break
-        if result is not None and time.time() > t_end:
             break
         ig = tuple(ignore)
         m_min, sp_min, culprits = reduce_failure(m, cur, sig, ig)
@@ -733,13 +733,12 @@ class Document(BObl):
 LEXICAL = [
     {},                                                         # documentation spelling
     {'kw': 'lower', 'str': 'double', 'quote': 'quoted'},
-    {'kw': 'upper', 'str': 'triple', 'quote': 'bare'},
+    {'kw': 'upper', 'str': 'triple', 'quote': 'bare', 'esc': 'min'},
     {'kw': 'mixed', 'str': 'single', 'quote': 'quoted'},
-    {'kw': 'title', 'str': 'triple', 'quote': 'quoted', 'esc': 'min'},
 ]
 SETTING_FEATURES = {
     'column': {'pk', 'unique', 'not_null', 'autoinc', 'default_int', 'default_float', 'default_bool', 'default_null',
-               'default_str', 'default_expr', 'note', 'note_ml', 'ref_inline', 'ref_inline2'},
+               'default_str', 'default_expr', 'note', 'note_ml', 'ref_inline', 'ref_inline2', 'prop', 'prop2'},
     'index': {'name', 'unique', 'type', 'pk', 'note', 'note_ml'},
     'ref_short': {'on_update', 'on_delete'}, 'ref_long': {'on_update', 'on_delete'}, 'ref_inline': set(),
     'table': {'header_color', 'note', 'note_ml'}, 'enum': {'item_note', 'item_note_ml'},
@@ -815,7 +814,7 @@ class Element(BObl):
     rule = ('for each element kind (column, index, ref short/long/inline, table, enum, table group, project, sticky '
             'note): every consistent subset of its features of size <= 3 (spec/gen.py *_FEATURES; the features in spec/gen.py PAIR_ONLY '
             'only up to pairs), embedded in a minimal document, x the spelling variants that apply '
-            '(bounded/c01.py element_variants): 5 rows covering keyword case {doc,lower,UPPER,Title,mIxEd} x string '
+            '(bounded/c01.py element_variants): 4 rows covering keyword case {doc,lower,UPPER,mIxEd} x string '
             'style {single,double,triple} x identifiers {bare,quoted}; every order of the <=3 settings one-line, '
             'multi-line list in 2 orders; note in settings / Note: / Note {}; padded triple strings; comment '
             'above/trailing, // and /* */; addressing bare/qualified/alias; `primary key`, explicit `null`, '
